@@ -744,6 +744,17 @@ class Model(Object):
         # First check whether the reactions exist in the model.
         pruned = DictList(filter(existing_filter, reaction_list))
 
+        # Fail before anything is changed if the solver cannot take a reaction.
+        for reaction in pruned:
+            for name in (reaction.id, reaction.reverse_id):
+                if name in self.variables:
+                    raise ValueError(
+                        f"Cannot add reaction '{reaction.id}': the solver already has a "
+                        f"variable named '{name}'."
+                    )
+            # raises a ValueError for an identifier that is no valid variable name
+            self.problem.Variable(reaction.id)
+
         context = get_context(self)
 
         # Add reactions. Also take care of genes and metabolites in the loop.
